@@ -121,7 +121,24 @@ static void run_join(Src &s) {
     text.pop_back();
     g_case.tag("no_final_newline");
   }
-  write_file(g_scr.dir + "/vfj.conf", text);
+  // layered variant: the generated file is a drop-in above a main file that defines every key once with another
+  // value - the drop-in's value list (joined or not) is what the merged configuration has to show
+  clear_dir(g_scr.dir);
+  if (s.chance(20)) {
+    std::string mainf = "only_main=1\n";
+    for (const std::string &sec : secs) {
+      std::string block;
+      for (auto &id : order)
+        if (id.first == sec) block += id.second + "=MAIN\n";
+      if (block.empty()) continue;
+      mainf += (sec.empty() ? std::string() : "[" + sec + "]\n") + block;
+    }
+    mkdir_p(g_scr.dir + "/vfj.conf.d");
+    write_file(g_scr.dir + "/vfj.conf", mainf);
+    write_file(g_scr.dir + "/vfj.conf.d/50-gen.conf", text);
+    g_case.tag("generated_file_is_a_dropin");
+  } else
+    write_file(g_scr.dir + "/vfj.conf", text);
   bool join_on = !s.chance(25);
   size_t offspelling = s.below(3);  // how "off" is spelled: no option / =0 / other options only
   std::string opts = "PARSING_DIRS=" + g_scr.dir;
